@@ -35,7 +35,7 @@ CHECKS = {
     "C02": dict(
         engine="sched",
         technique="stateless exploration of all schedules up to a deviation (preemption) bound under a controlled scheduler: source-line points in the in-memory backends, SQL-statement points for SQLite",
-        text="N pollers (claim through get_invocations_to_run, then run) plus recovery / kill / late-finisher actors on one shared backend; queues with a single id, a duplicated id, three ids (batch-routed), a blocking-priority entry. Every schedule with <= 2 deviations (N=2), <= 1 (N=3), 0 (N=4) is executed on the real code; a monitor on all status changes, deliveries and body enter/exit decides: no second claim without a release, only the owner moves PENDING/RUNNING work (recovery excepted), stored record = last change, no overlapping bodies without kill/recovery in between.",
+        text="N pollers (claim through get_invocations_to_run, then run) plus recovery / kill / late-finisher actors on one shared backend; queues with a single id, a duplicated id, three ids (batch-routed), a blocking-priority entry; held invocations that a recovery run takes away and another runner re-claims while the first owner is inside its own status change. Every schedule with <= 2 deviations (N=2), <= 1 (N=3), 0 (N=4) is executed on the real code; a monitor on all status changes, deliveries and body enter/exit decides: no second claim without a release, only the owner moves PENDING/RUNNING work (recovery excepted), stored record = last change, no overlapping bodies without kill/recovery in between.",
         note="Scheduling points only inside mem_orchestrator/mem_broker/mem_state_backend (memory) or at SQL statements (SQLite); other code touches thread-local data only. Background history writers run last (explored as actors in C10). Bounds, not randomised schedules, for N up to 4. SQLite's own atomicity trusted; busy handler emulated by blocking.",
         design_ref="§2 C02",
     ),
